@@ -552,6 +552,11 @@ class Interp:
             return a.__class__(a.items + b.items)
         if isinstance(a, VSet) and isinstance(b, VSet) and isinstance(op, ast.BitOr):
             return VSet(list(dict.fromkeys(a.items + b.items)))
+        if isinstance(a, SymSet) and isinstance(b, SymSet) and isinstance(op, ast.Sub):
+            return SymSet(lambda k, p=a.pred, q=b.pred: z3.And(p(k), z3.Not(q(k))), "difference")
+        if isinstance(a, SymSet) and isinstance(b, VSet) and isinstance(op, ast.Sub):
+            terms = [self.ctx.to_val(x).t for x in b.items]
+            return SymSet(lambda k, p=a.pred: z3.And(p(k), *[k != t for t in terms]), "difference")
         x = self.num_operand(a)
         y = self.num_operand(b)
         rt = TNum(inf=True, nan=True)
